@@ -1,12 +1,12 @@
 """C02 — Each needed task runs exactly once per invocation; nothing else runs."""
-from . import executor as E, planner as P
+from . import executor as E, graphs as G, planner as P
 
 META = {
     "explanation": "W1 worklist once-only discipline at the planner (a task is expanded by exactly one lowering entry), "
                    "PL6 (one op and one progress count per lowered task, main_task reported), PL7 (cached xor lowered, "
                    "guard equals `not run_again and not should_run`), PL8 (tasks only from the closure), EX3/EX6/EX7 "
                    "(an op is dequeued at one site and ends in exactly one state).",
-    "rules": ["W1(planner)", "PL6", "PL7", "PL8", "EX3", "EX6", "EX7"],
+    "rules": ["W1(planner)", "PL6", "PL7", "PL8", "DUP1", "EX1", "EX3", "EX6", "EX7"],
     "assumptions": ["the caching decision itself (which version is reusable) is C05's subject"],
     "trusted": ["ast parser", "own call resolver"],
 }
@@ -16,7 +16,10 @@ def run(A, rep, tier):
     F = P.PlannerFacts(A)
     P.rule_w1_planner(A, rep, F)
     P.rules_planner_counts(A, rep, F)
+    # a dependency listed twice (under two spellings) would be linked twice and its dependent enqueued twice
+    G.rule_dup1(A, rep)
     X = E.ExecFacts(A)
+    E.rule_ex1(A, rep, X)
     E.rule_ex3(A, rep, X)
     E.rule_ex6(A, rep, X, stop_rules=False)
     E.rule_ex7(A, rep, X)
